@@ -61,7 +61,13 @@ type faultState struct {
 }
 
 func baseSetup(ctx context.Context, x *Nd, r *Rng) *faultState {
-	x.addSchema(ctx, faultSchema)
+	return baseSetupWith(ctx, x, r, faultSchema)
+}
+
+const faultSchemaBranchable = `type User @branchable { name: String @index age: Int email: String @index(unique: true) points: Int @crdt(type: pncounter) }`
+
+func baseSetupWith(ctx context.Context, x *Nd, r *Rng, schema string) *faultState {
+	x.addSchema(ctx, schema)
 	st := &faultState{}
 	n := 3 + r.Intn(2)
 	for j := 0; j < n; j++ {
@@ -74,7 +80,11 @@ func baseSetup(ctx context.Context, x *Nd, r *Rng) *faultState {
 		st.names = append(st.names, name)
 	}
 	// the update events of the setup are delivered asynchronously: take them all before the call is observed
-	if got := len(x.drainUpdates(n, 3*time.Second)); got != n {
+	want := n
+	if strings.Contains(schema, "@branchable") {
+		want = 2 * n
+	}
+	if got := len(x.drainUpdates(want, 3*time.Second)); got != want {
 		panic(fmt.Sprintf("setup: %d update events for %d creates", got, n))
 	}
 	return st
@@ -236,6 +246,47 @@ func faultScenarios(tmp string) []scenario {
 		},
 			func(ctx context.Context, x *Nd, st any) (string, error) {
 				return "", x.n.DB.BasicImport(ctx, st.(*faultState).extra.(string))
+			}},
+		{"branchable-delete-filter", func(ctx context.Context, x *Nd, r *Rng) any { return baseSetupWith(ctx, x, r, faultSchemaBranchable) },
+			func(ctx context.Context, x *Nd, st any) (string, error) {
+				return gqlErr(x, ctx, `mutation { delete_User(filter: {age: {_ge: 0}}) { _docID } }`)
+			}},
+		{"branchable-update", func(ctx context.Context, x *Nd, r *Rng) any { return baseSetupWith(ctx, x, r, faultSchemaBranchable) },
+			func(ctx context.Context, x *Nd, st any) (string, error) {
+				return gqlErr(x, ctx, `mutation { update_User(filter: {age: {_ge: 1}}, input: {name: "bb"}) { _docID } }`)
+			}},
+		{"merge-into-deleted", func(ctx context.Context, x *Nd, r *Rng) any {
+			st := baseSetup(ctx, x, r)
+			donor := newNd(ctx, "donor")
+			defer donor.close(ctx)
+			donor.addSchema(ctx, faultSchema)
+			for j := range st.docIDs {
+				donor.gql(ctx, fmt.Sprintf(`mutation { create_User(input: {name: "n%d", age: %d, email: "e%d", points: %d}) { _docID } }`, j, j%3, j, 1+j))
+			}
+			donor.drainUpdates(len(st.docIDs), 2*time.Second)
+			_, e := donor.gql(ctx, fmt.Sprintf(`mutation { update_User(docID: "%s", input: {name: "merged", points: 4}) { _docID } }`, st.docIDs[0]))
+			if e != "" {
+				panic(e)
+			}
+			evs := donor.drainUpdates(1, 2*time.Second)
+			if len(evs) != 1 {
+				panic("donor event")
+			}
+			// the document is deleted locally before the remote update arrives
+			if _, e := x.gql(ctx, fmt.Sprintf(`mutation { delete_User(docID: "%s") { _docID } }`, st.docIDs[0])); e != "" {
+				panic(e)
+			}
+			x.drainUpdates(1, 2*time.Second)
+			copyClosure(ctx, donor, x, evs[0].Cid)
+			st.extra = evs[0]
+			return st
+		},
+			func(ctx context.Context, x *Nd, st any) (string, error) {
+				ev := st.(*faultState).extra.(event.Update)
+				if t := x.merge(ctx, ev.DocID, ev.Cid, ev.CollectionID); t != "" {
+					return "", errors.New(t)
+				}
+				return "", nil
 			}},
 		{"merge-remote", func(ctx context.Context, x *Nd, r *Rng) any {
 			st := baseSetup(ctx, x, r)
@@ -412,7 +463,7 @@ func engFault(e *Env) {
 		}
 		scs = f
 	}
-	perScenario := 28
+	perScenario := 110
 	if e.thorough() {
 		perScenario = 1 << 30
 	}
